@@ -15,6 +15,11 @@ PREAMBLE = [
 ]
 
 
+# bound on the undeclared property's name (C15): longer than every property name of the metamodel (max 33), so that a
+# hook probing for ANY protocol key that is undeclared at the position is within reach of the solver
+XNAME_MAX = 40
+
+
 def cfg_for(tier):
     if tier == "thorough":
         return shapes.Cfg(max_depth=3, list_len=3, str_len=24, sym_leaf_depth=1)
@@ -86,7 +91,7 @@ def run(chk, mode, tier, timeout=None, skip_alias_roots=False):
         if extra:
             params = params + [("xname", "str"), ("xkind", "int")]
             names = sorted(_declared_names(table, lm.pos))
-            pre.append("len(xname) <= 8 and xname not in %r" % (tuple(names),))
+            pre.append("len(xname) <= %d and xname not in %r" % (XNAME_MAX, tuple(names)))
             pre.append("0 <= xkind < %d" % len(dispatch.EXTRA_PAYLOADS))
         # known findings: exclude the recorded region (if its witness still fails)
         for e in chk.known_for(lm.site):
